@@ -55,7 +55,7 @@ def scenario_object(sim: Sim) -> None:
     sb = pm.gen_sysbounds(ch, allow_none=False)
     now = 100.0
     live: dict[tuple[int, str], dict[str, Any]] = {}
-    nops = ch.int_between("nops", 8, 40)
+    nops = ch.int_between("nops", 8, sim.scale(40, 90))
     ever = False
     for step in range(nops):
         op = ch.weighted("op", [6, 2, 1, 2, 2])
@@ -145,7 +145,7 @@ def scenario_actor(sim: Sim) -> None:
         sb = pm.gen_sysbounds(ch, allow_none=False)
         h.publish_bounds(0, sb)
         st["sb_since"].append(sb)
-        nops = ch.int_between("nops", 6, 30)
+        nops = ch.int_between("nops", 6, sim.scale(30, 70))
 
         def on_idle() -> None:
             if st["sb_since"]:
